@@ -242,3 +242,27 @@ Definition drop_small (v : vec) : vec := map (fun x => if eqSmall 0 x then 0 els
    isProbability(SparseMatrix2D) requires every stored row to sum to one within 1e-6 *)
 Definition sparse_store_ok (tables : list mat) : bool :=
   forallb (fun tb => forallb (fun rw => eqSmall (qsum (drop_small rw)) 1) tb) tables.
+
+(* ------------------------------------------------------------------ factored (cooperative) model *)
+(* src: src/Factored/Utils/Core.cpp:toIndexPartial(ids, space, f) — mixed radix over the listed
+   factors, first listed factor least significant, digits taken from the FULL vector f *)
+Fixpoint to_index_partial (keys space f : list nat) : nat :=
+  match keys with
+  | [] => O
+  | k :: t => (nth k f O + nth k space O * to_index_partial t space f)%nat
+  end.
+
+(* src: src/Factored/MDP/CooperativeModel.cpp:CooperativeModel::sampleSRs —
+   fid = toIndexPartial(e.tag, S, s); aid = toIndexPartial(e.actionTag, graph_.getA(), a);
+   rews[i] = e.values(fid, aid) *)
+Definition coop_basis_reward (Sz Az tag atag : list nat) (values : mat) (s a : list nat) : Q :=
+  nthq (row values (to_index_partial tag Sz s)) (to_index_partial atag Az a).
+Definition coop_rewards (Sz Az : list nat) (bases : list (list nat * list nat * mat)) (s a : list nat) : vec :=
+  map (fun b => coop_basis_reward Sz Az (fst (fst b)) (snd (fst b)) (snd b) s a) bases.
+(* src: CooperativeModel::sampleSR — the reward is rewards_.getValue(S, A, s, a), the sum over the bases *)
+Definition coop_reward (Sz Az : list nat) (bases : list (list nat * list nat * mat)) (s a : list nat) : Q :=
+  qsum (coop_rewards Sz Az bases s a).
+(* src: CooperativeModel::sampleSR / sampleSRs — s1[i] = sampleProbability(S[i], T_i.row(getId(i,s,a)), rand_),
+   one draw per feature in feature order; [rows] are the rows getId selects (DDN indexing: property C14) *)
+Definition coop_next (rows : list vec) (us : vec) : list nat :=
+  map (fun p => sample_dense (fst p) (snd p)) (combine rows us).
